@@ -282,9 +282,6 @@ def run(ctx):
         or any(st[0] == "a" and st[2][0] == "bin" and st[2][1] in ("Lt", "Le", "Gt", "Ge") for f in F.with_closures(esp) for _, _, st in f.stmts()),
         "felts are range-checked against the prime before deserialisation", esp.where())
     tsz = F.find1("cairo_lang_sierra_type_size::get_type_size_map")
-    n_checked = len([c for f in F.with_closures(tsz) for c in f.calls() if c.name() in ("checked_add", "checked_mul")])
-    ctx.ob("R14.3", "get_type_size_map:checked-arithmetic", n_checked >= 3,
-           "type sizes are accumulated with checked arithmetic (%d checked_add/checked_mul sites)" % n_checked, tsz.where())
     tso = [f for f in F.with_closures(tsz) if blocks_constructing(f, "ProgramRegistryError", "TypeSizeOverflow")]
     ctx.ob("R14.3", "get_type_size_map:TypeSizeOverflow", bool(tso), "overflowing sizes are rejected with TypeSizeOverflow", tsz.where())
 
